@@ -38,7 +38,7 @@ func genOp(kinds []string) *rapid.Generator[Op] {
 			op.A = rapid.IntRange(0, 400).Draw(t, "a")
 		}
 		switch k {
-		case "after", "afterI", "afterAbsent", "drain", "deep", "cursor", "cursorI":
+		case "after", "afterI", "afterAbsent", "drain", "deep", "cursor", "cursorI", "asc", "desc", "zig", "ascL", "descL":
 			op.B = rapid.IntRange(0, 400).Draw(t, "b")
 		}
 		return op
@@ -82,10 +82,10 @@ func genTreeCase(depth bool) func(t *rapid.T) TreeCase {
 				c.Ops = append(c.Ops[:i], append([]Op{op}, c.Ops[i:]...)...)
 			}
 			run := rapid.SampledFrom([]string{"asc", "desc", "zig"}).Draw(t, "runKind")
-			ins(Op{Kind: run, A: rapid.IntRange(7, 39).Draw(t, "runLen")})
+			ins(Op{Kind: run, A: rapid.IntRange(7, 39).Draw(t, "runLen"), B: rapid.IntRange(0, 2).Draw(t, "runVia")})
 			if depth && c.Beta >= 900 && rapid.Bool().Draw(t, "long") {
 				// loose factors: only a long path-extending run gets near the bound
-				ins(Op{Kind: rapid.SampledFrom([]string{"ascL", "descL"}).Draw(t, "longKind"), A: rapid.IntRange(0, 1399).Draw(t, "longLen")})
+				ins(Op{Kind: rapid.SampledFrom([]string{"ascL", "descL"}).Draw(t, "longKind"), A: rapid.IntRange(0, 1399).Draw(t, "longLen"), B: rapid.IntRange(0, 2).Draw(t, "longVia")})
 			}
 			if depth {
 				ins(Op{Kind: "deep", A: rapid.IntRange(0, 5).Draw(t, "deepN"), B: rapid.IntRange(0, 400).Draw(t, "deepB")})
